@@ -1,6 +1,7 @@
 //! C15 — status event registers latch filtered condition transitions until read.
 use crate::engine::{CheckResult, Engine, Obs, PropertyMeta};
 use crate::props::status_common::*;
+use proptest::prelude::*;
 
 pub fn meta() -> PropertyMeta {
     PropertyMeta {
@@ -50,6 +51,60 @@ pub fn check(h: &History, obs: &Obs) -> CheckResult {
     run_history(h, scope, obs)
 }
 
+/// A device that samples its hardware condition when the status subsystem asks for mutable
+/// access to the register: the transition happens *during* the event query. It must be
+/// reported by that read or the next one (latched until read, never lost), and be gone after.
+#[derive(Clone, Copy, Debug, serde::Serialize, serde::Deserialize, Hash)]
+pub struct Lazy {
+    pub ques: bool,
+    pub ptr: u16,
+    pub ntr: u16,
+    pub old: u16,
+    pub new: u16,
+}
+
+pub fn check_lazy(c: &Lazy, obs: &Obs) -> CheckResult {
+    use crate::dev488::{MinDev, MIN_TREE};
+    use crate::{ensure, fail};
+    use scpi::Context;
+    let name = if c.ques { "QUES" } else { "OPER" };
+    let mut dev = MinDev::new(false);
+    let mut run = |dev: &mut MinDev, msg: String| -> Result<String, crate::engine::Failure> {
+        let mut ctx = Context::default();
+        let mut resp: Vec<u8> = Vec::new();
+        match MIN_TREE.run(msg.as_bytes(), dev, &mut ctx, &mut resp) {
+            Ok(()) => Ok(String::from_utf8_lossy(&resp).trim().to_string()),
+            Err(e) => Err(crate::engine::Failure::new("lazy-device-error", format!("{msg:?} fails with {}", e.get_code()))),
+        }
+    };
+    run(&mut dev, format!("STAT:{name}:PTR {};NTR {}", c.ptr & 0x7FFF, c.ntr & 0x7FFF))?;
+    if c.ques { dev.questionable.set_condition(c.old) } else { dev.operation.set_condition(c.old) }
+    run(&mut dev, format!("STAT:{name}?"))?; // forget what the initial condition latched
+    if c.ques { dev.pending_ques = Some(c.new) } else { dev.pending_oper = Some(c.new) }
+    let parse = |s: &str| -> Result<u16, crate::engine::Failure> { s.parse::<u16>().map_err(|_| crate::engine::Failure::new("lazy-device-error", format!("event query answered {s:?}"))) };
+    let r1 = parse(&run(&mut dev, format!("STAT:{name}?"))?)?;
+    let r2 = parse(&run(&mut dev, format!("STAT:{name}:EVEN?"))?)?;
+    let r3 = parse(&run(&mut dev, format!("STAT:{name}?"))?)?;
+    let rise = !c.old & c.new;
+    let fall = c.old & !c.new;
+    let want = ((rise & c.ptr) | (fall & c.ntr)) & 0x7FFF;
+    obs.label("device sampling its condition inside register_mut()");
+    obs.nontrivial_if(want != 0, c);
+    ensure!(r1 | r2 == want, "event-lost", "{name} ptr={:#06x} ntr={:#06x} condition {:#06x} -> {:#06x} sampled during the event query: the two following reads return {r1} and {r2}, the filtered transition is {want}", c.ptr, c.ntr, c.old, c.new);
+    ensure!(r1 & r2 == 0 && r3 == 0, "event-not-cleared", "{name}: reads after one sampled transition return {r1}, {r2}, {r3}");
+    if r1 == 0 && want != 0 {
+        // reported one read late: allowed by "latched until read", but then the first read saw nothing to clear
+        obs.label("transition reported by the second read");
+    }
+    let _ = fail_unused_lazy;
+    Ok(())
+}
+
+#[allow(dead_code)]
+fn fail_unused_lazy() -> CheckResult {
+    crate::fail!("unused", "unused")
+}
+
 fn run(e: &Engine) {
     e.proptest("register-histories", e.tier.pick(60_000, 3_000_000), || history([1, 10, 0, 0, 1], 40, 2), check);
     e.require_fraction("double toggle between event reads", "history", 0.2);
@@ -91,4 +146,25 @@ fn run(e: &Engine) {
         },
         check,
     );
+    // a device whose register accessor samples the hardware: per bit every (ptr, ntr, old, new), then random masks
+    e.enumerate::<Lazy, _, _>(
+        "device-sampling-condition-in-accessor",
+        32,
+        |part, f| {
+            let ques = part & 1 == 1;
+            let bit = (part >> 1) as u16;
+            let m = 1u16 << bit;
+            for k in 0..16u16 {
+                let on = |b: u16| if k & b != 0 { m } else { 0 };
+                if !f(Lazy { ques, ptr: on(1), ntr: on(2), old: on(4), new: on(8) }) {
+                    return;
+                }
+                if !f(Lazy { ques, ptr: on(1) | 0x0101, ntr: on(2) | 0x1010, old: on(4) | 0x0011, new: on(8) | 0x1100 }) {
+                    return;
+                }
+            }
+        },
+        check_lazy,
+    );
+    e.proptest("device-sampling-condition-in-accessor-random", e.tier.pick(20_000, 500_000), || (any::<bool>(), any::<u16>(), any::<u16>(), any::<u16>(), any::<u16>()).prop_map(|(ques, ptr, ntr, old, new)| Lazy { ques, ptr, ntr, old, new }), check_lazy);
 }
